@@ -43,18 +43,27 @@ theorem negotiate_mirror (l r : List Cap) :
 
 /-- **feature_iff_both.**  A family is in force iff both OPENs carry it; for a family in force an
     add-path direction is in force iff both advertised it (the last tuple a side lists for the family
-    is its advertisement); extended message / 4-octet AS iff both; extended next hop iff for some
-    family in force both sides list an RFC 8950 tuple. -/
+    is its advertisement) and extended next hop is in force iff both list an RFC 8950 tuple for THAT
+    family; extended message / 4-octet AS iff both; the encoder puts IPv4 unicast into MP_REACH /
+    MP_UNREACH iff extended next hop is in force for IPv4 unicast itself. -/
 theorem feature_iff_both (l r : List Cap) :
     (∀ f, (∃ s ∈ (negotiate l r).fams, s.fam = f) ↔ (Cap.mp f ∈ l ∧ Cap.mp f ∈ r)) ∧
     (∀ f s, (negotiate l r).state f = some s →
         s.rx = (bit0 (lastMode f (addPathTuples l)) && bit1 (lastMode f (addPathTuples r))) ∧
-        s.tx = (bit1 (lastMode f (addPathTuples l)) && bit0 (lastMode f (addPathTuples r)))) ∧
+        s.tx = (bit1 (lastMode f (addPathTuples l)) && bit0 (lastMode f (addPathTuples r))) ∧
+        s.enh = (enhAdv f l && enhAdv f r)) ∧
     ((negotiate l r).extMsg = true ↔ (Cap.extMsg ∈ l ∧ Cap.extMsg ∈ r)) ∧
     ((negotiate l r).as4 = true ↔ ((∃ n, Cap.as4 n ∈ l) ∧ (∃ n, Cap.as4 n ∈ r))) ∧
-    ((negotiate l r).enh = true ↔
-        ∃ f, Cap.mp f ∈ l ∧ Cap.mp f ∈ r ∧ enhAdv f l = true ∧ enhAdv f r = true) :=
-  ⟨family_iff_both l r, addpath_iff_both l r, extmsg_iff_both l r, as4_iff_both l r, enh_iff_both l r⟩
+    ((negotiate l r).enh = (match (negotiate l r).state IPV4 with | some s => s.enh | none => false)) :=
+  ⟨family_iff_both l r,
+   fun f s h => ⟨(addpath_iff_both l r f s h).1, (addpath_iff_both l r f s h).2, Proofs.enh_iff_both l r f s h⟩,
+   extmsg_iff_both l r, as4_iff_both l r, enh_encoding l r⟩
+
+/-- the reviewer's case: extended next hop for VPNv4 only, on both sides — in force for VPNv4, not for
+    IPv4 unicast, and IPv4 unicast keeps its classic encoding -/
+example : negotiate [.mp 65537, .mp 65664, .enh [(65664, 2)]] [.mp 65537, .mp 65664, .enh [(65664, 2)]] =
+    { fams := [⟨65537, false, false, false⟩, ⟨65664, false, false, true⟩], extMsg := false, enh := false, as4 := false } := by
+  decide
 
 /-- what "the last tuple wins" means for a side that lists a family once or consistently -/
 theorem advertised_mode_unanimous (f : Family) (m : Nat) (t : List (Family × Nat))
@@ -177,15 +186,66 @@ theorem dynamic_peer_gc (g : GlobalCfg) (groups : List Group) (peers : List Peer
 /-- the same, read at the moment the last connection ends -/
 theorem dynamic_peer_removed_with_last_connection (g : GlobalCfg) (groups : List Group) (peers : List PeerCase)
     (hd : ∀ pc ∈ peers, pc.params.dyn = false) (st : St) (h : Reach g groups peers st) (sid : Nat) (a : Ip)
-    (hnone : ∀ s ∈ (disconnect st sid).1.live, s.addr ≠ a) :
-    ∀ p, plookup a (disconnect st sid).1.peers = some p → p.cfg.dyn = false := by
+    (hnone : ∀ s ∈ (disconnect st sid none).1.live, s.addr ≠ a) :
+    ∀ p, plookup a (disconnect st sid none).1.peers = some p → p.cfg.dyn = false := by
   intro p hp
-  have h' : Reach g groups peers (disconnect st sid).1 := Reach.step (op := .disc sid) h rfl
+  have h' : Reach g groups peers (disconnect st sid none).1 := Reach.step (op := .disc sid) h rfl
   cases hdy : p.cfg.dyn with
   | false => rfl
   | true =>
     obtain ⟨s, hs, hsa⟩ := dynamic_peer_gc g groups peers hd _ h' (a, p) (plookup_mem _ _ _ hp) hdy
     exact absurd hsa (hnone s hs)
+
+/-- states after a list of operations (for concrete witnesses) -/
+def stateAfter (st : St) : List Op → Option St
+  | [] => some st
+  | op :: rest => match step st op with
+      | .ok (st', _, _) => stateAfter st' rest
+      | .panic => none
+
+theorem reach_stateAfter (g : GlobalCfg) (groups : List Group) (peers : List PeerCase) :
+    ∀ (ops : List Op) (st st' : St), Reach g groups peers st → stateAfter st ops = some st' → Reach g groups peers st'
+  | [], st, st', h, e => by simp only [stateAfter, Option.some.injEq] at e; rw [← e]; exact h
+  | op :: rest, st, st', h, e => by
+    simp only [stateAfter] at e
+    cases hs : step st op with
+    | panic => rw [hs] at e; cases e
+    | ok t =>
+      obtain ⟨st1, r, b⟩ := t
+      rw [hs] at e
+      exact reach_stateAfter g groups peers rest st1 st' (Reach.step h hs) e
+
+def gcGroup : Group :=
+  { name := "g1", asn := 65002, localAsn := 0, hold := none, passive := false, rs := false, rrClient := false
+    cluster := none, fams := [], sm := [], gr := none, llgr := none, nets := [⟨[127, 0, 2, 0], 24⟩] }
+def gcAddr : Ip := ⟨[127, 0, 2, 9]⟩
+
+/-- a dynamic neighbour is created by its first connection and collected with its last one -/
+example : ((stateAfter (initSt ⟨65001, 1, none⟩ [gcGroup]) [.connect gcAddr .passive]).map fun st => st.peers.length) = some 1 := by
+  decide
+example : ((stateAfter (initSt ⟨65001, 1, none⟩ [gcGroup]) [.connect gcAddr .passive, .connect gcAddr .active, .disc 0]).map
+    fun st => st.peers.length) = some 1 := by decide
+example : ((stateAfter (initSt ⟨65001, 1, none⟩ [gcGroup]) [.connect gcAddr .passive, .connect gcAddr .active, .disc 0, .discx 1 65002 90]).map
+    fun st => st.peers.length) = some 0 := by decide
+
+/-- the converse one would like: as long as a connection of a dynamic address exists and has not
+    been told to close, the neighbour state exists -/
+def dynamic_state_while_connected : Prop :=
+  ∀ (g : GlobalCfg) (groups : List Group) (peers : List PeerCase) (st : St), Reach g groups peers st →
+    ∀ s ∈ st.live, s.doom = none → (plookup s.addr st.peers).isSome = true
+
+/-- it fails (F16c, third face): after `connect P; delete; connect A; disc 0` the task of the deleted
+    neighbour's connection has removed the re-created neighbour under its live connection -/
+theorem dynamic_state_while_connected_fails : ¬ dynamic_state_while_connected := by
+  intro h
+  have hex : ∃ st, stateAfter (initSt ⟨65001, 1, none⟩ [gcGroup])
+      [.connect gcAddr .passive, .delete gcAddr, .connect gcAddr .active, .disc 0] = some st ∧
+      ∃ s ∈ st.live, s.doom = none ∧ (plookup s.addr st.peers).isSome = false := by decide
+  obtain ⟨st, hst, s, hs, hd, hn⟩ := hex
+  have hr : Reach ⟨65001, 1, none⟩ [gcGroup] [] st :=
+    reach_stateAfter _ _ _ _ _ st Reach.init hst
+  have := h _ _ _ st hr s hs hd
+  rw [hn] at this; cases this
 
 /-- **accept_iff.**  `accept_connection` turns a connection into a session exactly when the remote
     address is a neighbour in the table that is administratively up and whose close-channel slot
@@ -317,13 +377,19 @@ def CaseWF : Case → Prop
   | .contains n a => bytesOk n.bytes ∧ bytesOk a.bytes
   | .hist g groups peers ops => HistWF g groups peers ops
 
+/-- operations of a case that can tear a connection down -/
+def hasTearDown : Case → Bool
+  | .hist _ _ _ ops => ops.any admOp
+  | _ => false
+
 /-- **check_run_ok.**  The C16 reference checker accepts every observation the model produces —
     for every pair of capability lists, every prefix / address, every configuration and every
-    history — with exactly one exception, recorded as an open finding on the real code: a
-    connection accepted while a closing connection of the same direction still exists (F16c). -/
+    history.  The only thing it may report is one of the three faces of the open finding F16c
+    (accepted next to a closing connection, static or dynamic; neighbour state removed under a live
+    connection), and that only for a history containing a shutdown / reset / disable / delete. -/
 theorem check_run_ok (c : Case) (hwf : CaseWF c) :
     Spec.check c (run c) = .ok ∨
-    (∃ k, Spec.check c (run c) = .fail k "accepted-while-closing-connection-same-direction") := by
+    (∃ k cl, Spec.check c (run c) = .fail k cl ∧ cl ∈ hitClauses ∧ hasTearDown c = true) := by
   cases c with
   | neg l r sm => exact Or.inl (checkNeg_model l r sm)
   | contains n a =>
@@ -340,9 +406,14 @@ theorem check_run_ok (c : Case) (hwf : CaseWF c) :
   | hist g groups peers ops =>
     obtain ⟨h, hr⟩ := runHist_ok g groups peers ops hwf
     simp only [run, hr, Spec.check]
-    rcases checkHist_model g groups peers ops hwf h hr with hk | hk
-    · exact Or.inl hk
-    · exact Or.inr hk
+    exact checkHist_model g groups peers ops hwf h hr
+
+/-- in particular: a history without shutdown / reset / disable / delete is accepted outright -/
+theorem check_run_ok_without_teardown (c : Case) (hwf : CaseWF c) (hq : hasTearDown c = false) :
+    Spec.check c (run c) = .ok := by
+  rcases check_run_ok c hwf with h | ⟨_, _, _, _, h⟩
+  · exact h
+  · rw [hq] at h; cases h
 
 /-- the drivers run the model and the oracle only on cases passing the run-time guard
     `Codec.wfCase`, and the guard implies the hypothesis of `check_run_ok` -/
